@@ -677,6 +677,17 @@ mpeg2_ts_pkt_is_valid(const mpeg2_ts_hdr_t *ts_hdr, const size_t mpeg2_ts_pkt_si
 
 	/* PSI: Program specific information processing. */
 	switch (pid) {
+	case MPEG2_TS_PID_PAT:
+	case MPEG2_TS_PID_CAT:
+	case MPEG2_TS_PID_TSDT:
+	case MPEG2_TS_PID_SDT:
+	case MPEG2_TS_PID_EIT: /* Table header must be inside packet. */
+		if ((buf_pos + sizeof(mpeg2_psi_tbl_hdr_t)) >
+		    (((const uint8_t*)ts_hdr) + mpeg2_ts_pkt_size))
+			return (0);
+		break;
+	}
+	switch (pid) {
 	case MPEG2_TS_PID_PAT: /* Program Association Table. */
 		if (0 == MPEG2_PSI_IS_PAT_HDR(((const mpeg2_psi_tbl_hdr_t*)buf_pos)))
 			return (0);
